@@ -736,6 +736,12 @@ Proof.
   destruct (ver <=? v); [reflexivity | apply IH; assumption].
 Qed.
 
+Lemma Forall_firstn' {A} (P : A -> Prop) : forall n l, Forall P l -> Forall P (firstn n l).
+Proof.
+  induction n as [|n IH]; intros l H; [constructor|]. destruct l as [|x l]; [constructor|].
+  inversion H; subst. cbn [firstn]. constructor; [assumption | apply IH; assumption].
+Qed.
+
 Definition lex_le (a b : name) : Prop := lex_ltb b a = false.
 Definition lex_sorted (l : list name) : Prop := StronglySorted lex_le l.
 
@@ -819,8 +825,8 @@ Proof.
     + destruct lexical.
       * (* V2 names on a lexically ordered store: the first entry *)
         rewrite parse_version_attached by assumption.
-        rewrite <- (map_firstn (entry_of V2)).
-        rewrite sanity_loop_canon by (apply Forall_firstn; assumption).
+        rewrite firstn_map.
+        rewrite sanity_loop_canon by (apply Forall_firstn'; assumption).
         symmetry. apply expected_is_max. apply (is_max_perm _ (v0 :: vl)); [apply Permutation_sym; exact PV|].
         split; [left; reflexivity|]. constructor; [lia|].
         specialize (Hsort eq_refl).
@@ -832,4 +838,590 @@ Proof.
         rewrite Forall_forall in Hvl'.
         rewrite v2_name_order in Hall by auto. lia.
       * rewrite parse_version_attached by assumption. exact Scan.
+Qed.
+
+(* ------------------------------------------------------------------ *)
+(* current_manifest_local                                              *)
+(* ------------------------------------------------------------------ *)
+Notation lstate := (option (N * name) * option scheme)%type (only parsing).
+
+Definition linv (s : scheme) (acc : list N) (st : lstate) : Prop :=
+  match fst st with
+  | None => acc = []
+  | Some (m, f) => f = manifest_name s m /\ attached m /\ is_max m acc /\ snd st = Some s
+  end.
+
+Lemma fold_local_err : forall rd, fold_left local_step rd Err = Err.
+Proof. induction rd as [|f rd IH]; [reflexivity | exact IH]. Qed.
+
+Lemma fold_local_panic : forall rd, fold_left local_step rd Panic = Panic.
+Proof. induction rd as [|f rd IH]; [reflexivity | exact IH]. Qed.
+
+Lemma is_max_snoc_new : forall m acc v, is_max m acc -> m < v -> is_max v (acc ++ [v]).
+Proof.
+  intros m acc v [H1 H2] Hlt. split; [apply in_or_app; right; left; reflexivity|].
+  apply Forall_app. split; [|constructor; [lia | constructor]].
+  eapply Forall_impl; [|exact H2]. cbn. intros; lia.
+Qed.
+
+Lemma is_max_snoc_old : forall m acc v, is_max m acc -> v <= m -> is_max m (acc ++ [v]).
+Proof.
+  intros m acc v [H1 H2] Hle. split; [apply in_or_app; left; assumption|].
+  apply Forall_app. split; [assumption | constructor; [assumption | constructor]].
+Qed.
+
+Lemma local_step_inv : forall s acc st f, (canon s f \/ junk f) -> linv s acc st ->
+  match local_step (Ok st) f with
+  | Ok st' => linv s (acc ++ filter_map ver_of [f]) st'
+  | Err => True
+  | Panic => False
+  end.
+Proof.
+  intros s acc [latest sch] f Hf Hinv. unfold linv in Hinv. cbn [fst snd] in Hinv.
+  cbn [local_step filter_map]. destruct Hf as [(v & Hv & ->)|Hj].
+  - (* an attached manifest of the directory's scheme *)
+    rewrite detect_scheme_attached, ver_of_canon by assumption.
+    destruct latest as [[m g]|].
+    + destruct Hinv as (-> & Hm & Hmax & ->). rewrite scheme_eqb_refl.
+      rewrite parse_version_attached by assumption.
+      destruct (m <? v) eqn:E; unfold linv; cbn [fst snd].
+      * split; [reflexivity | split; [assumption | split; [|reflexivity]]].
+        apply (is_max_snoc_new m); [assumption | lia].
+      * split; [reflexivity | split; [assumption | split; [|reflexivity]]].
+        apply is_max_snoc_old; [assumption | lia].
+    + subst acc.
+      assert (Hs : exists sch', (match sch with
+                 | Some s0 => if scheme_eqb s0 s then Some sch else None
+                 | None => Some (Some s) end) = sch' /\ (sch' = None \/ sch' = Some (Some s))).
+      { destruct sch as [s0|]; [|eauto]. destruct (scheme_eqb s0 s) eqn:E; [|eauto].
+        apply scheme_eqb_eq in E. subst s0. eauto. }
+      destruct Hs as (sch' & -> & [->| ->]); [exact I|].
+      rewrite parse_version_attached by assumption. unfold linv. cbn [fst snd app].
+      split; [reflexivity | split; [assumption | split; [|reflexivity]]].
+      split; [left; reflexivity | constructor; [lia | constructor]].
+  - (* junk: either not detected, or detected but without a version *)
+    rewrite (ver_of_junk f Hj), app_nil_r. unfold junk, valid_entry in Hj.
+    destruct (detect_scheme f) as [es|]; [|unfold linv; exact Hinv].
+    destruct (parse_version es f); [discriminate|].
+    destruct sch as [s0|].
+    + destruct (scheme_eqb s0 es); [unfold linv; exact Hinv | exact I].
+    + destruct latest as [[m g]|]; [destruct Hinv as (_ & _ & _ & Hn); discriminate|].
+      unfold linv. cbn [fst]. exact Hinv.
+Qed.
+
+Lemma local_fold_inv : forall s rd acc st, Forall (fun f => canon s f \/ junk f) rd -> linv s acc st ->
+  match fold_left local_step rd (Ok st) with
+  | Ok st' => linv s (acc ++ filter_map ver_of rd) st'
+  | Err => True
+  | Panic => False
+  end.
+Proof.
+  intros s rd. induction rd as [|f rd IH]; intros acc st Hrd Hinv.
+  - cbn [fold_left filter_map]. rewrite app_nil_r. exact Hinv.
+  - inversion Hrd as [|? ? Hf Hrd']; subst. cbn [fold_left].
+    pose proof (local_step_inv s acc st f Hf Hinv) as Hstep.
+    destruct (local_step (Ok st) f) as [st1| |].
+    + specialize (IH _ _ Hrd' Hstep). 
+      replace (acc ++ filter_map ver_of (f :: rd)) with ((acc ++ filter_map ver_of [f]) ++ filter_map ver_of rd).
+      * exact IH.
+      * rewrite <- app_assoc. f_equal. cbn [filter_map]. destruct (ver_of f); reflexivity.
+    + rewrite fold_local_err. exact I.
+    + exfalso. exact Hstep.
+Qed.
+
+Lemma dir_entries_classified : forall s vs jk l,
+  Forall attached vs -> Forall junk jk -> Permutation l (map (manifest_name s) vs ++ jk) ->
+  Forall (fun f => canon s f \/ junk f) l.
+Proof.
+  intros s vs jk l Hvs Hjk P. eapply Permutation_Forall; [apply Permutation_sym; exact P|].
+  apply Forall_app. split.
+  - apply Forall_forall. intros f Hf. apply in_map_iff in Hf as (v & <- & Hv).
+    left. exists v. split; [|reflexivity]. rewrite Forall_forall in Hvs. auto.
+  - eapply Forall_impl; [|exact Hjk]. intros f Hf. right. exact Hf.
+Qed.
+
+(* the local fast path either declines (Err / no manifest) or answers with the highest attached version *)
+Lemma current_manifest_local_spec : forall s vs jk rd,
+  Forall attached vs -> Forall junk jk -> Permutation rd (map (manifest_name s) vs ++ jk) ->
+  current_manifest_local rd = Err \/
+  (current_manifest_local rd = Ok None /\ vs = []) \/
+  (exists m, current_manifest_local rd = Ok (Some (m, manifest_name s m, s)) /\ is_max m vs).
+Proof.
+  intros s vs jk rd Hvs Hjk P.
+  pose proof (dir_entries_classified s vs jk rd Hvs Hjk P) as Hcl.
+  pose proof (local_fold_inv s rd [] (None, None) Hcl eq_refl) as H.
+  pose proof (filter_map_dir ver_of (fun v => v) s vs jk rd Hvs Hjk (ver_of_canon s) ver_of_junk P) as PV.
+  rewrite map_id in PV. cbn [app] in H.
+  unfold current_manifest_local. revert H.
+  destruct (fold_left local_step rd (Ok (None, None))) as [[latest sch]| |]; intro H; [|left; reflexivity | exfalso; exact H].
+  unfold linv in H. cbn [fst snd] in H. destruct latest as [[m g]|].
+  - destruct H as (-> & Hm & Hmax & ->). right. right. exists m. split; [reflexivity|].
+    eapply is_max_perm; eassumption.
+  - right. left. rewrite H in PV. apply Permutation_nil in PV. split; [reflexivity | exact PV].
+Qed.
+
+(* ------------------------------------------------------------------ *)
+(* C33_latest                                                          *)
+(* ------------------------------------------------------------------ *)
+Theorem latest_exact : forall s vs jk_rd jk_ls is_local lexical rd ls,
+  Forall attached vs -> Forall junk jk_rd -> Forall junk jk_ls ->
+  Permutation rd (map (manifest_name s) vs ++ jk_rd) ->
+  Permutation ls (map (manifest_name s) vs ++ jk_ls) ->
+  (lexical = true -> lex_sorted ls) ->
+  current_manifest_path is_local lexical rd ls = expected s vs.
+Proof.
+  intros s vs jk_rd jk_ls is_local lexical rd ls Hvs Hj1 Hj2 P1 P2 Hsort.
+  pose proof (list_path_latest s vs jk_ls ls lexical Hvs Hj2 P2 Hsort) as HL.
+  destruct is_local.
+  - rewrite current_manifest_path_local.
+    destruct (current_manifest_local_spec s vs jk_rd rd Hvs Hj1 P1) as [E|[[E _]|(m & E & Hmax)]]; rewrite E.
+    + exact HL.
+    + exact HL.
+    + symmetry. apply expected_is_max. exact Hmax.
+  - rewrite current_manifest_path_nonlocal. exact HL.
+Qed.
+
+(* ------------------------------------------------------------------ *)
+(* list_manifest_locations                                             *)
+(* ------------------------------------------------------------------ *)
+Definition loc_of (s : scheme) (v : N) : N * name * scheme := (v, manifest_name s v, s).
+Definition ge_ver (a b : N * name * scheme) : Prop := loc_version b <= loc_version a.
+
+Lemma insert_desc_perm : forall x l, Permutation (insert_desc x l) (x :: l).
+Proof.
+  intros x l. induction l as [|y r IH]; cbn [insert_desc]; [apply Permutation_refl|].
+  destruct (loc_version x <? loc_version y); [|apply Permutation_refl].
+  eapply Permutation_trans; [apply perm_skip; exact IH | apply perm_swap].
+Qed.
+
+Lemma sort_desc_perm : forall l, Permutation (sort_desc l) l.
+Proof.
+  induction l as [|x l IH]; [constructor|]. cbn [sort_desc fold_right]. fold (sort_desc l).
+  eapply Permutation_trans; [apply insert_desc_perm | apply perm_skip; exact IH].
+Qed.
+
+Lemma insert_desc_sorted : forall x l, StronglySorted ge_ver l -> StronglySorted ge_ver (insert_desc x l).
+Proof.
+  intros x l H. induction H as [|y r Hr IH Hall]; cbn [insert_desc].
+  - constructor; constructor.
+  - destruct (loc_version x <? loc_version y) eqn:E.
+    + constructor; [exact IH|].
+      eapply Permutation_Forall; [apply Permutation_sym, insert_desc_perm|].
+      constructor; [unfold ge_ver; lia | exact Hall].
+    + constructor; [constructor; assumption|].
+      constructor; [unfold ge_ver; lia|].
+      eapply Forall_impl; [|exact Hall]. unfold ge_ver. intros; lia.
+Qed.
+
+Lemma sort_desc_sorted : forall l, StronglySorted ge_ver (sort_desc l).
+Proof.
+  induction l as [|x l IH]; [constructor|]. cbn [sort_desc fold_right]. fold (sort_desc l).
+  apply insert_desc_sorted. exact IH.
+Qed.
+
+Lemma v2_locs_sorted : forall vl, Forall attached vl ->
+  StronglySorted (fun a b => lex_le (snd (fst a)) (snd (fst b))) (map (loc_of V2) vl) ->
+  StronglySorted ge_ver (map (loc_of V2) vl).
+Proof.
+  induction vl as [|v vl IH]; intros Hatt H; cbn [map] in *; [constructor|].
+  inversion Hatt as [|? ? Hv Hvl]; subst. inversion H as [|? ? Hs Hall]; subst.
+  constructor; [apply IH; assumption|].
+  rewrite Forall_forall in Hall |- *. intros e He. specialize (Hall e He).
+  apply in_map_iff in He as (w & <- & Hw). rewrite Forall_forall in Hvl.
+  unfold loc_of, lex_le, ge_ver, loc_version in *. cbn [fst snd] in *.
+  rewrite v2_name_order in Hall by auto. lia.
+Qed.
+
+Theorem list_exact : forall s vs jk ls sorted lexical,
+  Forall attached vs -> Forall junk jk ->
+  Permutation ls (map (manifest_name s) vs ++ jk) ->
+  (lexical = true -> lex_sorted ls) ->
+  Permutation (list_manifest_locations sorted lexical ls) (map (loc_of s) vs) /\
+  (sorted = true -> StronglySorted ge_ver (list_manifest_locations sorted lexical ls)).
+Proof.
+  intros s vs jk ls sorted lexical Hvs Hjk P Hsort.
+  pose proof (filter_map_dir location_of (loc_of s) s vs jk ls Hvs Hjk
+                (location_of_canon s) location_of_junk P) as PL.
+  fold (list_manifests ls) in PL.
+  unfold list_manifest_locations. destruct sorted; cbn [negb].
+  2:{ split; [exact PL | discriminate]. }
+  assert (Sorted_case : Permutation (sort_desc (list_manifests ls)) (map (loc_of s) vs) /\
+                        (true = true -> StronglySorted ge_ver (sort_desc (list_manifests ls)))).
+  { split; [eapply Permutation_trans; [apply sort_desc_perm | exact PL] | intros _; apply sort_desc_sorted]. }
+  destruct lexical; [|exact Sorted_case].
+  destruct (list_manifests ls) as [|[[v f] sch] rest] eqn:EL.
+  - split; [exact PL | intros _; constructor].
+  - destruct sch; [exact Sorted_case|].
+    split; [exact PL | intros _].
+    pose proof PL as PL'. apply Permutation_map_inv in PL'. destruct PL' as (vl & EV & PV).
+    assert (Hvl : Forall attached vl) by (eapply Permutation_Forall; eassumption).
+    assert (s = V2) as ->.
+    { destruct vl as [|v0 vl]; [discriminate|]. cbn [map] in EV. unfold loc_of at 1 in EV. inversion EV; reflexivity. }
+    rewrite EV. apply v2_locs_sorted; [exact Hvl|]. rewrite <- EV, <- EL.
+    apply (filter_map_sorted location_of (fun e => snd (fst e)) location_of_name). apply Hsort. reflexivity.
+Qed.
+
+(* with distinct versions the sorted listing is strictly descending *)
+Lemma sorted_ge_nodup_strict : forall l, StronglySorted ge_ver l -> NoDup (map loc_version l) ->
+  StronglySorted (fun a b => loc_version b < loc_version a) l.
+Proof.
+  intros l H. induction H as [|x l Hl IH Hall]; intro ND; [constructor|].
+  cbn [map] in ND. inversion ND as [|? ? Hnin ND']; subst.
+  constructor; [apply IH; exact ND'|].
+  rewrite Forall_forall in Hall |- *. intros y Hy. specialize (Hall y Hy). unfold ge_ver in Hall.
+  assert (loc_version y <> loc_version x).
+  { intro E. apply Hnin. rewrite <- E. apply in_map. exact Hy. }
+  lia.
+Qed.
+
+Theorem list_sorted_strict : forall s vs jk ls lexical,
+  Forall attached vs -> Forall junk jk -> NoDup vs ->
+  Permutation ls (map (manifest_name s) vs ++ jk) ->
+  (lexical = true -> lex_sorted ls) ->
+  StronglySorted (fun a b => loc_version b < loc_version a) (list_manifest_locations true lexical ls).
+Proof.
+  intros s vs jk ls lexical Hvs Hjk ND P Hsort.
+  destruct (list_exact s vs jk ls true lexical Hvs Hjk P Hsort) as [PL HS].
+  apply sorted_ge_nodup_strict; [apply HS; reflexivity|].
+  eapply Permutation_NoDup; [apply Permutation_sym, Permutation_map; exact PL|].
+  rewrite map_map. unfold loc_of, loc_version. cbn [fst]. rewrite map_id. exact ND.
+Qed.
+
+(* ------------------------------------------------------------------ *)
+(* migrate_scheme_to_v2                                                *)
+(* ------------------------------------------------------------------ *)
+Definition names (d : dir) : list name := map fst d.
+(* the name a file has after the migration *)
+Definition target (f : name) : name :=
+  if is_v1_name f then match parse_version V1 f with Some v => manifest_name V2 v | None => f end else f.
+Definition retarget (e : name * N) : name * N := (target (fst e), snd e).
+
+Lemma parse_digits_bound : forall s acc v, acc <= u64max -> parse_digits acc s = Some v -> v <= u64max.
+Proof.
+  induction s as [|c s IH]; intros acc v Hacc H; cbn [parse_digits] in H.
+  - inversion H; subst; assumption.
+  - destruct (is_digit c); [|discriminate].
+    destruct (acc * 10 + (c - c_0) <=? u64max) eqn:E; [|discriminate].
+    eapply IH; [|exact H]. lia.
+Qed.
+
+Lemma parse_u64_bound : forall s v, parse_u64 s = Some v -> v <= u64max.
+Proof.
+  intros [|c r] v H; cbn [parse_u64] in H; [discriminate|].
+  destruct (c =? c_plus).
+  - destruct r; [discriminate|]. eapply parse_digits_bound; [|exact H]. unfold u64max; lia.
+  - eapply parse_digits_bound; [|exact H]. unfold u64max; lia.
+Qed.
+
+Lemma parse_version_v1_bound : forall f v, parse_version V1 f = Some v -> v <= u64max.
+Proof.
+  intros f v H. unfold parse_version in H. destruct (split_once_dot f) as [[a b]|]; [|discriminate].
+  apply parse_u64_bound in H. exact H.
+Qed.
+
+Lemma attached_or_detached : forall v, v <= u64max -> attached v \/ detached v.
+Proof. intros v Hv. unfold attached, detached. destruct (N.lt_ge_cases v two63); [left | right]; lia. Qed.
+
+Lemma v2_name_not_v1 : forall v, v <= u64max -> is_v1_name (manifest_name V2 v) = false.
+Proof.
+  intros v Hv. unfold is_v1_name. destruct (attached_or_detached v Hv) as [H|H].
+  - rewrite detect_scheme_attached by assumption. reflexivity.
+  - rewrite detect_scheme_detached by assumption. reflexivity.
+Qed.
+
+Lemma target_not_v1 : forall f, (is_v1_name f = true -> parse_version V1 f <> None) -> is_v1_name (target f) = false.
+Proof.
+  intros f H. unfold target. destruct (is_v1_name f) eqn:E; [|exact E].
+  destruct (parse_version V1 f) as [v|] eqn:P; [|exfalso; apply H; reflexivity].
+  apply v2_name_not_v1. eapply parse_version_v1_bound; eassumption.
+Qed.
+
+Lemma target_v1_canon : forall v, attached v -> target (manifest_name V1 v) = manifest_name V2 v.
+Proof.
+  intros v H. unfold target, is_v1_name. rewrite detect_scheme_attached, parse_version_attached by assumption.
+  reflexivity.
+Qed.
+
+Lemma target_not_v1_id : forall f, is_v1_name f = false -> target f = f.
+Proof. intros f H. unfold target. rewrite H. reflexivity. Qed.
+
+(* the version a file denotes is unchanged by its renaming *)
+Lemma target_keeps_version : forall f,
+  (forall v, ver_of f = Some v -> attached v) -> ver_of (target f) = ver_of f.
+Proof.
+  intros f H. unfold target. destruct (is_v1_name f) eqn:E; [|reflexivity].
+  unfold is_v1_name in E. unfold ver_of in H |- *. destruct (detect_scheme f) as [[|]|] eqn:D; try discriminate.
+  destruct (parse_version V1 f) as [v|] eqn:P.
+  - specialize (H v eq_refl). fold (ver_of (manifest_name V2 v)). apply ver_of_canon. exact H.
+  - rewrite D, P. reflexivity.
+Qed.
+
+(* association-list facts *)
+Lemma names_remove : forall f d, names (remove_name f d) = filter (fun g => negb (name_eqb g f)) (names d).
+Proof.
+  intros f d. unfold names, remove_name. induction d as [|e d IH]; cbn [filter map]; [reflexivity|].
+  destruct (negb (name_eqb (fst e) f)); cbn [map]; rewrite IH; reflexivity.
+Qed.
+
+Lemma in_names_remove : forall f g d, In g (names (remove_name f d)) <-> In g (names d) /\ g <> f.
+Proof.
+  intros f g d. rewrite names_remove, filter_In. split; intros [H1 H2]; split; try assumption.
+  - apply negb_true_iff, name_eqb_neq in H2. exact H2.
+  - apply negb_true_iff, name_eqb_neq. exact H2.
+Qed.
+
+Lemma remove_name_notin : forall f d, ~ In f (names d) -> remove_name f d = d.
+Proof.
+  intros f d H. unfold remove_name. apply filter_all. intros e He.
+  apply negb_true_iff, name_eqb_neq. intro E. apply H. unfold names. rewrite <- E. apply in_map. exact He.
+Qed.
+
+Lemma lookup_in : forall f d, In f (names d) -> exists c, lookup f d = Some c /\ In (f, c) d.
+Proof.
+  intros f d. unfold lookup, names. induction d as [|[g c] d IH]; cbn [map In find fst snd]; [contradiction|].
+  intros [E|H].
+  - subst g. rewrite name_eqb_refl. exists c. split; [reflexivity | left; reflexivity].
+  - destruct (name_eqb g f) eqn:E.
+    + apply name_eqb_eq in E. subst g. exists c. split; [reflexivity | left; reflexivity].
+    + destruct (IH H) as (c' & H1 & H2). exists c'. split; [exact H1 | right; exact H2].
+Qed.
+
+Lemma perm_remove : forall f c d, NoDup (names d) -> In (f, c) d -> Permutation d ((f, c) :: remove_name f d).
+Proof.
+  intros f c d. unfold names, remove_name. induction d as [|[g c'] d IH]; intros ND Hin; [contradiction|].
+  cbn [map fst] in ND. inversion ND as [|? ? Hnin ND']; subst. cbn [filter fst].
+  destruct Hin as [E|Hin].
+  - inversion E; subst. rewrite name_eqb_refl. cbn [negb].
+    apply perm_skip. fold (remove_name f d). rewrite remove_name_notin by exact Hnin. apply Permutation_refl.
+  - assert (g <> f).
+    { intro E. subst g. apply Hnin. change f with (fst (f, c)). apply in_map. exact Hin. }
+    apply name_eqb_neq in H. rewrite H. cbn [negb].
+    eapply Permutation_trans; [apply perm_skip; apply IH; assumption | apply perm_swap].
+Qed.
+
+Definition inb (f : name) (t : list name) : bool := existsb (name_eqb f) t.
+Definition rt (t : list name) (e : name * N) : name * N := if inb (fst e) t then retarget e else e.
+
+Lemma inb_in : forall f t, inb f t = true <-> In f t.
+Proof.
+  intros f t. unfold inb. rewrite existsb_exists. split.
+  - intros (g & Hg & E). apply name_eqb_eq in E. subst g. exact Hg.
+  - intro H. exists f. split; [exact H | apply name_eqb_refl].
+Qed.
+
+Lemma inb_notin : forall f t, inb f t = false <-> ~ In f t.
+Proof.
+  intros f t. split.
+  - intros H Hin. apply inb_in in Hin. congruence.
+  - intro H. destruct (inb f t) eqn:E; [apply inb_in in E; contradiction | reflexivity].
+Qed.
+
+Lemma migrate_loop_spec : forall todo d,
+  NoDup todo -> NoDup (names d) ->
+  (forall f, In f todo -> In f (names d) /\ is_v1_name f = true /\ parse_version V1 f <> None) ->
+  (forall f, In f todo -> ~ In (target f) (names d)) ->
+  NoDup (map target todo) ->
+  exists d', migrate_loop todo d = Ok d' /\ Permutation d' (map (rt todo) d).
+Proof.
+  induction todo as [|f todo IH]; intros d NDt NDd Hin Hfresh NDtt.
+  - exists d. split; [reflexivity|]. unfold rt, inb. cbn [existsb]. rewrite map_id. apply Permutation_refl.
+  - cbn [migrate_loop].
+    destruct (Hin f (or_introl eq_refl)) as (Hfd & Hv1 & Hp).
+    destruct (parse_version V1 f) as [v|] eqn:P; [|contradiction].
+    assert (Ht : target f = manifest_name V2 v) by (unfold target; rewrite Hv1, P; reflexivity).
+    set (t := manifest_name V2 v) in *.
+    pose proof (Hfresh f (or_introl eq_refl)) as Htf. rewrite Ht in Htf.
+    destruct (lookup_in f d Hfd) as (c & Hl & Hfc).
+    assert (Hne : f <> t) by (intro E; apply Htf; rewrite <- E; exact Hfd).
+    unfold rename. rewrite Hl. apply name_eqb_neq in Hne. rewrite Hne. apply name_eqb_neq in Hne.
+    rewrite (remove_name_notin t) by (intro H; apply in_names_remove in H as [H _]; contradiction).
+    inversion NDt as [|? ? Hft NDt']; subst. cbn [map] in NDtt. inversion NDtt as [|? ? Htt NDtt']; subst.
+    destruct (IH ((t, c) :: remove_name f d)) as (d' & Hd' & Pd'); try assumption.
+    + cbn [names map fst]. constructor.
+      * intro H. fold (names (remove_name f d)) in H. apply in_names_remove in H as [H _]. contradiction.
+      * fold (names (remove_name f d)). rewrite names_remove. apply NoDup_filter. exact NDd.
+    + intros g Hg. destruct (Hin g (or_intror Hg)) as (H1 & H2 & H3). split; [|split; assumption].
+      cbn [names map fst]. right. fold (names (remove_name f d)). apply in_names_remove. split; [exact H1|].
+      intro E. subst g. contradiction.
+    + intros g Hg H. cbn [names map fst] in H. destruct H as [H|H].
+      * apply Htt. rewrite Ht, H. apply in_map. exact Hg.
+      * fold (names (remove_name f d)) in H. apply in_names_remove in H as [H _].
+        apply (Hfresh g (or_intror Hg)). exact H.
+    + exists d'. split; [exact Hd'|].
+      eapply Permutation_trans; [exact Pd'|]. cbn [map].
+      assert (Htn : ~ In t todo).
+      { intro H. destruct (Hin t (or_intror H)) as (H1 & _). contradiction. }
+      unfold rt at 1. cbn [fst]. apply inb_notin in Htn. rewrite Htn.
+      eapply Permutation_trans;
+        [|apply Permutation_sym; apply (Permutation_map (rt (f :: todo))); apply (perm_remove f c d NDd Hfc)].
+      cbn [map].
+      assert (E1 : rt (f :: todo) (f, c) = (t, c)).
+      { unfold rt, inb, retarget. cbn [fst snd existsb]. rewrite name_eqb_refl. cbn [orb]. rewrite Ht. reflexivity. }
+      rewrite E1. apply perm_skip.
+      apply Permutation_refl'. apply map_ext_in. intros e He.
+      assert (fst e <> f).
+      { intro E. assert (In (fst e) (names (remove_name f d))) by (apply in_map; exact He).
+        apply in_names_remove in H as [_ H]. contradiction. }
+      unfold rt, inb. cbn [existsb]. apply name_eqb_neq in H. rewrite H. reflexivity.
+Qed.
+
+Lemma NoDup_map_inj_on {A B} (h : A -> B) : forall l a b,
+  NoDup (map h l) -> In a l -> In b l -> h a = h b -> a = b.
+Proof.
+  induction l as [|x l IH]; intros a b ND Ha Hb E; [contradiction|].
+  cbn [map] in ND. inversion ND as [|? ? Hnin ND']; subst.
+  destruct Ha as [->|Ha], Hb as [->|Hb]; try reflexivity.
+  - exfalso. apply Hnin. rewrite E. apply in_map. exact Hb.
+  - exfalso. apply Hnin. rewrite <- E. apply in_map. exact Ha.
+  - eapply IH; eassumption.
+Qed.
+
+Lemma NoDup_map_filter {A B} (h : A -> B) (p : A -> bool) : forall l,
+  NoDup (map h l) -> NoDup (map h (filter p l)).
+Proof.
+  induction l as [|x l IH]; intro ND; cbn [filter map]; [constructor|].
+  cbn [map] in ND. inversion ND as [|? ? Hnin ND']; subst.
+  destruct (p x); cbn [map]; [|apply IH; exact ND'].
+  constructor; [|apply IH; exact ND'].
+  intro H. apply Hnin. apply in_map_iff in H as (y & E & Hy). apply filter_In in Hy as [Hy _].
+  rewrite <- E. apply in_map. exact Hy.
+Qed.
+
+Theorem migrate_exact : forall d,
+  NoDup (map target (names d)) ->
+  (forall f, In f (names d) -> is_v1_name f = true -> parse_version V1 f <> None) ->
+  exists d', migrate_scheme_to_v2 d = Ok d' /\ Permutation d' (map retarget d) /\
+             migrate_scheme_to_v2 d' = Ok d'.
+Proof.
+  intros d NDt Hparse.
+  assert (NDd : NoDup (names d)) by (eapply NoDup_map_inv; exact NDt).
+  unfold migrate_scheme_to_v2. fold (names d).
+  set (todo := filter is_v1_name (names d)).
+  destruct (migrate_loop_spec todo d) as (d' & Hd' & Pd').
+  - apply NoDup_filter. exact NDd.
+  - exact NDd.
+  - intros f Hf. apply filter_In in Hf as [H1 H2]. repeat split; auto.
+  - intros f Hf Hin. apply filter_In in Hf as [H1 H2].
+    assert (Hnv : is_v1_name (target f) = false) by (apply target_not_v1; auto).
+    assert (E : target (target f) = target f) by (apply target_not_v1_id; exact Hnv).
+    assert (target f = f) by (eapply (NoDup_map_inj_on target); eassumption).
+    rewrite H in Hnv. congruence.
+  - apply NoDup_map_filter. exact NDt.
+  - exists d'. split; [exact Hd'|].
+    assert (Pr : Permutation d' (map retarget d)).
+    { eapply Permutation_trans; [exact Pd'|]. apply Permutation_refl'. apply map_ext_in. intros e He.
+      unfold rt. destruct (inb (fst e) todo) eqn:E; [reflexivity|].
+      apply inb_notin in E. unfold retarget.
+      assert (is_v1_name (fst e) = false).
+      { destruct (is_v1_name (fst e)) eqn:V; [|reflexivity]. exfalso. apply E. apply filter_In.
+        split; [apply in_map; exact He | exact V]. }
+      rewrite target_not_v1_id by assumption. destruct e; reflexivity. }
+    split; [exact Pr|].
+    (* idempotent: nothing is detected as V1 any more *)
+    assert (Hnone : filter is_v1_name (map fst d') = []).
+    { apply (Permutation_map fst) in Pr. rewrite map_map in Pr. cbn [retarget fst] in Pr.
+      assert (F : Forall (fun f => is_v1_name f = false) (map fst d')).
+      { eapply Permutation_Forall; [apply Permutation_sym; exact Pr|].
+        apply Forall_forall. intros f Hf. apply in_map_iff in Hf as (e & <- & He).
+        apply target_not_v1. apply Hparse. apply in_map. exact He. }
+      clear -F. induction (map fst d') as [|x l IH]; [reflexivity|].
+      inversion F as [|? ? Hx Hl]; subst. cbn [filter]. rewrite Hx. apply IH. exact Hl. }
+    rewrite Hnone. reflexivity.
+Qed.
+
+(* a uniform V1 directory: attached manifests (version, content) under V1 names plus files not detected as V1 *)
+Definition v1_entry (p : N * N) : name * N := (manifest_name V1 (fst p), snd p).
+Definition v2_entry (p : N * N) : name * N := (manifest_name V2 (fst p), snd p).
+
+Lemma NoDup_app' {A} : forall l1 l2 : list A,
+  NoDup l1 -> NoDup l2 -> (forall x, In x l1 -> ~ In x l2) -> NoDup (l1 ++ l2).
+Proof.
+  induction l1 as [|x l1 IH]; intros l2 H1 H2 H; cbn [app]; [exact H2|].
+  inversion H1 as [|? ? Hnin H1']; subst. constructor.
+  - intro Hin. apply in_app_or in Hin as [Hin|Hin]; [contradiction | apply (H x (or_introl eq_refl)); exact Hin].
+  - apply IH; try assumption. intros y Hy. apply H. right. exact Hy.
+Qed.
+
+Lemma NoDup_map_inj_in {A B} (h : A -> B) : forall l,
+  (forall a b, In a l -> In b l -> h a = h b -> a = b) -> NoDup l -> NoDup (map h l).
+Proof.
+  induction l as [|x l IH]; intros Hinj ND; cbn [map]; [constructor|].
+  inversion ND as [|? ? Hnin ND']; subst. constructor.
+  - intro H. apply in_map_iff in H as (y & E & Hy). apply Hnin.
+    rewrite (Hinj x y (or_introl eq_refl) (or_intror Hy) (eq_sym E)). exact Hy.
+  - apply IH; [|exact ND']. intros a b Ha Hb. apply Hinj; right; assumption.
+Qed.
+
+Theorem migrate_uniform : forall (vc : list (N * N)) (jk d : dir),
+  NoDup (map fst vc) -> Forall attached (map fst vc) ->
+  Forall (fun e => is_v1_name (fst e) = false) jk -> NoDup (names jk) ->
+  (forall v, In v (map fst vc) -> ~ In (manifest_name V2 v) (names jk)) ->
+  Permutation d (map v1_entry vc ++ jk) ->
+  exists d', migrate_scheme_to_v2 d = Ok d' /\ Permutation d' (map v2_entry vc ++ jk) /\
+             migrate_scheme_to_v2 d' = Ok d'.
+Proof.
+  intros vc jk d NDv Hatt Hjk NDj Hdis P.
+  rewrite Forall_forall in Hatt.
+  assert (Hret : map retarget (map v1_entry vc ++ jk) = map v2_entry vc ++ jk).
+  { rewrite map_app, map_map. f_equal.
+    - apply map_ext_in. intros p Hp. unfold retarget, v1_entry, v2_entry. cbn [fst snd].
+      rewrite target_v1_canon; [reflexivity|]. apply Hatt. apply in_map. exact Hp.
+    - rewrite <- (map_id jk) at 2. apply map_ext_in. intros e He. unfold retarget.
+      rewrite Forall_forall in Hjk. rewrite target_not_v1_id by (apply Hjk; exact He). destruct e; reflexivity. }
+  destruct (migrate_exact d) as (d' & H1 & H2 & H3).
+  - (* no two files end up under the same name *)
+    apply (Permutation_map fst) in P. fold (names d) in P.
+    eapply Permutation_NoDup; [apply Permutation_sym, Permutation_map; exact P|].
+    replace (map target (map fst (map v1_entry vc ++ jk))) with (map fst (map retarget (map v1_entry vc ++ jk)))
+      by (rewrite !map_map; reflexivity).
+    rewrite Hret, map_app. apply NoDup_app'.
+    + rewrite map_map. unfold v2_entry. cbn [fst]. rewrite <- (map_map fst (manifest_name V2)).
+      apply NoDup_map_inj_in; [|exact NDv].
+      intros a b Ha Hb E. apply (manifest_name_inj V2); [| |exact E].
+      * specialize (Hatt a Ha). unfold attached, two63 in Hatt. unfold u64max. lia.
+      * specialize (Hatt b Hb). unfold attached, two63 in Hatt. unfold u64max. lia.
+    + exact NDj.
+    + intros x Hx. rewrite map_map in Hx. apply in_map_iff in Hx as (p & <- & Hp). unfold v2_entry. cbn [fst].
+      apply Hdis. apply in_map. exact Hp.
+  - intros f Hf Hv1. apply (Permutation_map fst) in P. fold (names d) in P.
+    apply (Permutation_in _ P) in Hf. rewrite map_app in Hf. apply in_app_or in Hf as [Hf|Hf].
+    + rewrite map_map in Hf. apply in_map_iff in Hf as (p & <- & Hp). unfold v1_entry. cbn [fst].
+      rewrite parse_version_attached by (apply Hatt; apply in_map; exact Hp). discriminate.
+    + apply in_map_iff in Hf as (e & <- & He). rewrite Forall_forall in Hjk. rewrite (Hjk e He) in Hv1. discriminate.
+  - exists d'. split; [exact H1|]. split; [|exact H3].
+    eapply Permutation_trans; [exact H2|]. rewrite <- Hret. apply Permutation_map. exact P.
+Qed.
+
+(* ------------------------------------------------------------------ *)
+(* complete description of the u64 parser                              *)
+(* ------------------------------------------------------------------ *)
+Theorem parse_u64_spec : forall s v,
+  parse_u64 s = Some v <->
+  exists ds, (s = ds \/ s = c_plus :: ds) /\ ds <> [] /\ Forall digit ds /\ dval 0 ds = v /\ v <= u64max.
+Proof.
+  intros s v. split.
+  - intro H. pose proof (parse_u64_bound s v H) as Hb. destruct s as [|c r]; [discriminate|].
+    cbn [parse_u64] in H. destruct (c =? c_plus) eqn:E.
+    + apply N.eqb_eq in E. subst c. destruct r as [|c' r']; [discriminate|].
+      apply parse_digits_sound in H as [Hd Hv]. exists (c' :: r'). split; [right; reflexivity|]. split; [discriminate|]. split; [exact Hd|].
+      split; [symmetry; exact Hv | exact Hb].
+    + apply parse_digits_sound in H as [Hd Hv]. exists (c :: r). split; [left; reflexivity|]. split; [discriminate|]. split; [exact Hd|].
+      split; [symmetry; exact Hv | exact Hb].
+  - intros (ds & Hs & Hne & Hd & Hv & Hb). destruct Hs as [->| ->].
+    + rewrite parse_u64_digits by assumption. rewrite parse_digits_dval; [congruence | assumption | lia].
+    + cbn [parse_u64]. rewrite N.eqb_refl. destruct ds as [|c r]; [contradiction|].
+      rewrite parse_digits_dval; [congruence | assumption | lia].
+Qed.
+
+Lemma parse_u64_overflow : forall ds, Forall digit ds -> u64max < dval 0 ds ->
+  parse_u64 ds = None /\ parse_u64 (c_plus :: ds) = None.
+Proof.
+  intros ds Hd Hov. split.
+  - destruct (parse_u64 ds) as [v|] eqn:E; [|reflexivity]. exfalso.
+    apply parse_u64_spec in E as (ds' & Hs & _ & Hd' & Hv & Hb). destruct Hs as [->| ->]; [lia|].
+    inversion Hd as [|? ? Hc _]; subst. unfold digit, c_plus in Hc. lia.
+  - destruct (parse_u64 (c_plus :: ds)) as [v|] eqn:E; [|reflexivity]. exfalso.
+    apply parse_u64_spec in E as (ds' & Hs & _ & Hd' & Hv & Hb). destruct Hs as [E|E].
+    + subst ds'. inversion Hd' as [|? ? Hc _]; subst. unfold digit, c_plus in Hc. lia.
+    + inversion E; subst. lia.
 Qed.
